@@ -84,6 +84,9 @@ type CreatePlan struct {
 	SessionBatch int
 	// Returning: "" none; "all" Clauses(clause.Returning{}) (single struct only); "columns" Clauses(clause.Returning{Columns: every column})
 	Returning string
+	// NilMapAt: slice-of-maps paths: a nil map is put before the map of record NilMapAt-1 (0 = none). gorm
+	// writes an all-NULL row for it (create.go skips it when handing out keys but counts its key)
+	NilMapAt int
 	// ExprValues: map paths give some integer / text values as clause.Expr{SQL: "(? + 0)", Vars: …}
 	ExprValues bool
 }
@@ -104,6 +107,9 @@ func (p CreatePlan) String() string {
 	}
 	if p.ExprValues {
 		s += "+exprvalues"
+	}
+	if p.NilMapAt > 0 {
+		s += fmt.Sprintf("+nil-map-before-%d", p.NilMapAt-1)
 	}
 	return s
 }
@@ -286,14 +292,29 @@ func (e *Env) Create(rs *Records, p CreatePlan) (c *Created, err error) {
 					return c, err
 				}
 			}
-		case "maps", "maps-model":
-			if err := db().Create(c.Maps).Error; err != nil {
+		case "maps", "maps-model", "maps-ptr", "maps-ptr-model":
+			all := c.Maps
+			if p.NilMapAt > 0 && p.NilMapAt <= len(c.Maps) {
+				k := p.NilMapAt - 1
+				all = append(append(append([]map[string]interface{}{}, c.Maps[:k]...), nil), c.Maps[k:]...)
+			}
+			var err error
+			if strings.HasPrefix(p.Path, "maps-ptr") {
+				err = db().Create(&all).Error
+			} else {
+				err = db().Create(all).Error
+			}
+			if err != nil {
 				return c, err
 			}
-		case "maps-ptr", "maps-ptr-model":
-			if err := db().Create(&c.Maps).Error; err != nil {
-				return c, err
+			// what the caller's slice holds afterwards: the created maps in order (plus the nil one)
+			var kept []map[string]interface{}
+			for _, m := range all {
+				if m != nil {
+					kept = append(kept, m)
+				}
 			}
+			c.Maps = kept
 		default:
 			return c, fmt.Errorf("harness: unknown create path %q", p.Path)
 		}
